@@ -182,7 +182,20 @@ func checkC03(c *Check) {
 		)
 		in1, path1 := Query{Fn: run, Cut: notCancelled}.FromEntry(isI)
 		in2, path2 := Query{Fn: run, Cut: notCancelled}.After(I, isI)
-		if len(notCancelled) == 0 {
+		// the context that is tested is the request's CURRENT context: (*http.Request).Context() is called
+		// again before every invocation (a handler may have replaced the request's context)
+		isCtxCall := func(in ssa.Instruction) bool {
+			ci, ok := in.(ssa.CallInstruction)
+			return ok && callName(ci.Common()) == "(*net/http.Request).Context"
+		}
+		in3, path3 := Query{Fn: run, Avoid: isCtxCall}.FromEntry(isI)
+		in4, path4 := Query{Fn: run, Avoid: isCtxCall}.After(I, isI)
+		if in3 == nil && in4 != nil {
+			in3, path3 = in4, path4
+		}
+		if len(notCancelled) > 0 && in1 == nil && in2 == nil && in3 != nil {
+			c.Bad(key+":cancel-test", posI, "the cancellation test looks at a context obtained before the loop (Request.Context() is not re-read before every handler): a handler that replaces the request's context is not noticed", blockPath(path3))
+		} else if len(notCancelled) == 0 {
 			c.Bad(key+":cancel-test", posI, "no cancellation test of the request context guards the handler invocation")
 		} else if in1 != nil {
 			c.Bad(key+":cancel-test", posI, "a handler can be invoked without testing the request context for cancellation", blockPath(path1))
